@@ -420,6 +420,7 @@ pub fn explore(ctx: &Ctx, obs: &Observer) {
         Tier::Quick => (vec![4, 5, 8, 10, 12], vec![4, 7, 8, 10, 12, 21]),
         Tier::Thorough => (vec![4, 5, 6, 7, 8, 9, 10, 12, 14], vec![4, 5, 7, 8, 9, 10, 12, 14, 21]),
     };
+    let (lgs, lg_maxs) = if ctx.reduced { (vec![4u8, 8, 10], if ctx.tier == Tier::Quick { vec![8u8] } else { vec![4u8, 8, 12] }) } else { (lgs, lg_maxs) };
     let pool = build_pool(&lgs);
     ctx.count("pool members", pool.len() as u64);
     ctx.note(format!("pool: {}", pool.iter().map(|m| m.label.clone()).collect::<Vec<_>>().join(", ")));
@@ -498,7 +499,6 @@ pub fn explore(ctx: &Ctx, obs: &Observer) {
                 if !vs.is_empty() && report(ctx, vs, lg_max_k, &ops(), pool) {
                     return Step::Stop;
                 }
-                obs(ctx, &n, &|| replay_json(lg_max_k, &ops(), pool));
                 Step::Next(n)
             },
             |s: &UState| s.key(),
@@ -511,6 +511,9 @@ pub fn explore(ctx: &Ctx, obs: &Observer) {
                     &format!("lg_max_k={lg_max_k}: the same multiset of inputs in two orders (or with repetition) gives different results"),
                     json!({"kind":"hll_union_two_orders","lg_max_k":lg_max_k,"a":replay_json(lg_max_k,&a,pool),"b":replay_json(lg_max_k,&b,pool)}),
                 );
+            },
+            |s: &UState, path: &[u16]| {
+                obs(ctx, s, &|| replay_json(lg_max_k, &path.iter().map(|&i| alphabet[i as usize].clone()).collect::<Vec<Op>>(), pool));
             },
         );
         ctx.add_states(stats.states);
